@@ -251,6 +251,7 @@ def run_case(case):
         import copy
         p = plan
         o = {'verbose': rng.choice([0, 0, 1, 2])}
+        o.update(level_opts[0])
         if plan.get('_repeat'):
             o['repeat'] = plan['_repeat']
         if mode == 'resume':
@@ -275,8 +276,18 @@ def run_case(case):
                              env_extra=env_extra)
         return w, p, o
 
+    # a third of the plans are run with something said about test levels
+    # (all generated tests are on level 1: --only-level 2 / 3 select none of
+    # them - whatever went wrong while looking for tests still counts)
+    level_opts = [{}]
     try:
         for label, plan, intended_bad in plans:
+            level_opts[0] = rng.choice([
+                {}, {}, {}, {}, {'at_level': 0}, {'all': True},
+                {'only_level': 2}, {'only_level': 3}, {'only_level': 1},
+                {'at_level': 2}, {'at_level': -1}])
+            if level_opts[0]:
+                C('level_option_plans')
             modes = ['in']
             pool = ['j2', 'jk1', 'j1']
             if len(lnames) >= 2 or (lnames and None in
@@ -355,6 +366,7 @@ def run_case(case):
                 if any('kinds_seq' in (t or {}) for t in
                        (plan.get('tests') or {}).values()):
                     C('iteration_dependent_plans')
+        level_opts[0] = {}
         # ---- CLI exit status
         for label, plan, _b in rng.sample(plans, min(2, len(plans))):
             w, p, o = one(plan, 'in', cli=True)
